@@ -82,6 +82,7 @@ def tasks(tier):
                 for ls2 in (None, 1):
                     ts.append({'part': 'keys', 'ln1': ln1, 'ls1': ls1, 'ln2': ln2, 'ls2': ls2})
     ts += [{'part': 'scopes'}]
+    ts += [{'part': 'params', 'n': n} for n in (1, 2, 3)]
     ts += [{'part': 'split', 'ln': ln, 'lv': lv} for ln in (1, 2, 3) for lv in (0, 1, 2)]
     return ts
 
@@ -187,6 +188,32 @@ def run_task(task):
                 got.append((primary, 'param' if ir.get(sec, 'file_location').f[0] == 1 else ir.get(sec, 'file_location').f[0] // 10))
             ex.oblige(sorted(got, key=str) == sorted(want_reps, key=str), 'shadow-report', 'a shadowing report for exactly the redeclarations of a visible name, pointing at the shadowed declaration (got %s, expected %s) in %s' % (sorted(got, key=str), want_reps, p))
         st_, vs, inc = explore(h, entry, None, post=post, base=[shape >= task['lo'], shape < task['hi']], stats=stats, seed=common.seed())
+
+    elif part == 'params':
+        # repeated parameter names are reported: parameter names are symbolic one-character strings
+        n = task['n']; fn = pr.find('ensure_unique_variables', crate='structure')
+        cs = [z3.Int('p%d' % i) for i in range(n)]
+        for i, c in enumerate(cs): h.inputs['p%d' % i] = c
+        basep = [z3.And(c >= 97, c <= 99) for c in cs]
+
+        def entry(ex):
+            ex.notes['reports'] = []
+            body = build_ast(ir, (('U', 'z'),))
+            params = ir.S('Parameters', param_names=VecV([ir.name(StrV([c])) for c in cs]), file_id=some(0), file_location=ir.range_(1, 2))
+            return ex.call_mir(fn, [Ref([body], 0), Ref([params], 0), Ref([VecV([])], 0)])
+
+        def post(ex, res):
+            names = [ex.concretize(c, 97, 99) for c in cs]
+            dup = len(set(names)) != len(names)
+            ex.oblige((res.var == 'Err') == dup, 'param-collision', 'repeated parameter names are rejected, distinct ones accepted (names %s, result %s)' % (''.join(map(chr, names)), res.var))
+            if res.var == 'Err':
+                e = deref(res.f[0])
+                ex.oblige(e.var == 'ParameterNameCollisionError', 'param-collision', 'the error is the parameter name collision error')
+                if e.var == 'ParameterNameCollisionError':
+                    first_dup = next(chr(x) for i, x in enumerate(names) if x in names[:i])
+                    chars = deref(ir.get(e, 'name')).chars
+                    ex.oblige(len(chars) == 1 and simp(eq(chars[0], ord(first_dup))), 'param-collision', 'the error names the repeated parameter `%s`' % first_dup)
+        st_, vs, inc = explore(h, entry, None, post=post, base=basep, stats=stats, seed=common.seed())
 
     elif part in ('keys', 'scopes'):
         envnew = pr.method(None, 'Environment', 'new', file_hint='ssa_impl')
@@ -366,7 +393,7 @@ def main(tier, replay=None):
         rep.add_stats(r['stats'])
         for v in r['violations']:
             t = r['task']
-            role = {'function': {'scope': 'ensure_unique_variables', 'keys': 'ssa_impl::Environment', 'scopes': 'ssa_impl::Environment', 'split': 'String::try_lift'}[t['part']], 'kind': v['kind'], 'class': 'any'}
+            role = {'function': {'scope': 'ensure_unique_variables', 'params': 'ensure_unique_variables (parameters)', 'keys': 'ssa_impl::Environment', 'scopes': 'ssa_impl::Environment', 'split': 'String::try_lift'}[t['part']], 'kind': v['kind'], 'class': 'any'}
             key = json.dumps(role, sort_keys=True)
             if key in seen: continue
             program = None
